@@ -659,6 +659,46 @@ def report_violation(ctx, case, fail_pred, first_fail):
                         "how_to_replay": "tools/check.py C14 --replay <this file>"})
 
 
+def narrow_dtype_stream(ctx):
+    """Coordinates given in a narrow integer dtype whose range is smaller than the number of target elements (the flat
+    address of an element does not fit the coordinate dtype although every coordinate value does): `b [h] c, b q, b q`
+    and `b [h w], b q [2], b q` against explicit loops.  Returns the number of violations reported."""
+    einx = einx_mod()
+    found = 0
+    rng = np.random.RandomState(ctx.seed + 14)
+    for dt, (B, H, C) in [(np.int8, (12, 3, 4)), (np.uint8, (20, 4, 4)), (np.int16, (40, 30, 30)), (np.uint16, (50, 40, 35)), (np.int32, (12, 3, 4))]:
+        for mode in MODES:
+            for backend in BACKENDS:
+                Q = 2
+                t = rng.randint(-9, 9, size=(B, H, C)).astype(np.int64)
+                idx = np.stack([rng.permutation(H)[:Q] for _ in range(B)]).astype(dt)     # distinct per row: `set` is deterministic
+                u = rng.randint(1, 50, size=(B, Q)).astype(np.int64)
+                want = t.copy()
+                for b in range(B):
+                    for q in range(Q):
+                        h = int(idx[b, q])
+                        if mode == "set":
+                            want[b, h, :] = u[b, q]
+                        elif mode == "add":
+                            want[b, h, :] += u[b, q]
+                        else:
+                            want[b, h, :] -= u[b, q]
+                ctx.count("narrow_dtype_cases")
+                sig = f"einx.{OPNAME[mode]}('b [h] c, b q, b q') target {B}x{H}x{C} coordinates dtype={np.dtype(dt).name} backend={backend}"
+                try:
+                    got = np.asarray(getattr(einx, OPNAME[mode])("b [h] c, b q, b q", t.copy(), idx.copy(), u.copy(), backend=backend))
+                    bad = None if (got.shape == want.shape and np.array_equal(got, want)) else f"{int((got != want).sum()) if got.shape == want.shape else 'all'} elements differ from the loop-notation result"
+                except Exception as e:
+                    bad = None if is_rejection(e) else f"{type(e).__name__}: {str(e)[:150]}"
+                ctx.case(sig, True)
+                if bad is not None and found < 2:
+                    found += 1
+                    ctx.violation(sig, {"kind": "indexed update with narrow-dtype coordinates differs from the loop-notation meaning", "detail": bad,
+                                        "description": "b [h] c, b q, b q", "shapes": [[B, H, C], [B, Q], [B, Q]], "coordinate_dtype": np.dtype(dt).name,
+                                        "mode": mode, "backend": backend, "coordinates": idx.tolist()[:6], "updates": u.tolist()[:6]})
+    return found
+
+
 def run(ctx):
     rng = ctx.rng
     facts = ctx.facts.get("Update", {})
@@ -794,6 +834,8 @@ def run(ctx):
             if got != addr["lowered"]:
                 model_bad += 1
                 ctx.tie_broken("correspondence:ravel-kernel", f"get_at({get_description(case, names)!r}) on a ramp: real {got} vs model {addr['lowered']}")
+
+    found += narrow_dtype_stream(ctx)
 
     # floats: only through allclose, against the integer run shifted by the same constants
     nf = 0
